@@ -11,42 +11,45 @@ Import ListNotations.
 Definition okdb (n : nat) (db : database) : Prop := forall p, d_project db = Some p -> n <= p.
 Definition okobj (n : nat) (ob : obj) : Prop := match ob with ODatabase db => okdb n db | _ => True end.
 (* the heap is at least as large as the frame, and databases created above the frame record only projects above it *)
-Definition FJ (n : nat) (h : heap) : Prop := n <= length h /\ forall i ob, n <= i -> nth_error h i = Some ob -> okobj n ob.
-Definition Fr (n : nat) (h h' : heap) : Prop := forall x, x < n -> nth_error h' x = nth_error h x.
-Definition tri {A} (n : nat) (P : A -> Prop) (m : M A) : Prop :=
-  forall h h' r, FJ n h -> m h = (h', r) -> Fr n h h' /\ FJ n h' /\ (forall v, r = Ok v -> P v) /\ length h <= length h'.
+(* [d0]: one object below the frame that may be written as well — the database under construction, when the frame is
+   taken in the middle of build_database; with d0 >= n the exception is void *)
+Definition okk (n d0 i : nat) : Prop := n <= i \/ i = d0.
+Definition FJ (n d0 : nat) (h : heap) : Prop := n <= length h /\ forall i ob, okk n d0 i -> nth_error h i = Some ob -> okobj n ob.
+Definition Fr (n d0 : nat) (h h' : heap) : Prop := forall x, x < n -> x <> d0 -> nth_error h' x = nth_error h x.
+Definition tri {A} (n d0 : nat) (P : A -> Prop) (m : M A) : Prop :=
+  forall h h' r, FJ n d0 h -> m h = (h', r) -> Fr n d0 h h' /\ FJ n d0 h' /\ (forall v, r = Ok v -> P v) /\ length h <= length h'.
 
-Lemma Fr_refl n h : Fr n h h. Proof. intros x _. reflexivity. Qed.
-Lemma Fr_trans n a b c : Fr n a b -> Fr n b c -> Fr n a c.
-Proof. intros H1 H2 x Hx. rewrite (H2 x Hx). apply H1. exact Hx. Qed.
+Lemma Fr_refl n d0 h : Fr n d0 h h. Proof. intros x _ _. reflexivity. Qed.
+Lemma Fr_trans n d0 a b c : Fr n d0 a b -> Fr n d0 b c -> Fr n d0 a c.
+Proof. intros H1 H2 x Hx Hd. rewrite (H2 x Hx Hd). apply H1; assumption. Qed.
 
 Section TRI.
-  Variable n : nat.
+  Variables n d0 : nat.
   Definition T {A} (_ : A) : Prop := True.
 
-  Lemma tri_weak {A} (P Q : A -> Prop) (m : M A) : tri n P m -> (forall v, P v -> Q v) -> tri n Q m.
+  Lemma tri_weak {A} (P Q : A -> Prop) (m : M A) : tri n d0 P m -> (forall v, P v -> Q v) -> tri n d0 Q m.
   Proof. intros H W h h' r Hj E. destruct (H _ _ _ Hj E) as (F & J' & Pv & L). split; [exact F|split; [exact J'|split; [intros v Hv; apply W, Pv, Hv|exact L]]]. Qed.
-  Lemma tri_ro {A} (m : M A) : readonly m -> tri n T m.
-  Proof. intros R h h' r Hj E. apply R in E. subst. refine (conj (Fr_refl _ _) (conj Hj (conj _ (Nat.le_refl _)))). intros v _. exact I. Qed.
-  Lemma tri_ret {A} (P : A -> Prop) a : P a -> tri n P (ret a).
-  Proof. intros Pa h h' r Hj E. inversion E; subst. refine (conj (Fr_refl _ _) (conj Hj (conj _ (Nat.le_refl _)))). intros v Hv. inversion Hv; subst. exact Pa. Qed.
-  Lemma tri_raise {A} (P : A -> Prop) e : tri n P (raise e).
-  Proof. intros h h' r Hj E. inversion E; subst. refine (conj (Fr_refl _ _) (conj Hj (conj _ (Nat.le_refl _)))). intros v Hv. discriminate Hv. Qed.
-  Lemma tri_stuck {A} (P : A -> Prop) k : tri n P (stuck k).
+  Lemma tri_ro {A} (m : M A) : readonly m -> tri n d0 T m.
+  Proof. intros R h h' r Hj E. apply R in E. subst. refine (conj (Fr_refl _ _ _) (conj Hj (conj _ (Nat.le_refl _)))). intros v _. exact I. Qed.
+  Lemma tri_ret {A} (P : A -> Prop) a : P a -> tri n d0 P (ret a).
+  Proof. intros Pa h h' r Hj E. inversion E; subst. refine (conj (Fr_refl _ _ _) (conj Hj (conj _ (Nat.le_refl _)))). intros v Hv. inversion Hv; subst. exact Pa. Qed.
+  Lemma tri_raise {A} (P : A -> Prop) e : tri n d0 P (raise e).
+  Proof. intros h h' r Hj E. inversion E; subst. refine (conj (Fr_refl _ _ _) (conj Hj (conj _ (Nat.le_refl _)))). intros v Hv. discriminate Hv. Qed.
+  Lemma tri_stuck {A} (P : A -> Prop) k : tri n d0 P (stuck k).
   Proof. apply tri_raise. Qed.
-  Lemma tri_lift {A} (x : res A) : tri n T (lift x). Proof. apply tri_ro, ro_lift. Qed.
+  Lemma tri_lift {A} (x : res A) : tri n d0 T (lift x). Proof. apply tri_ro, ro_lift. Qed.
   Lemma tri_bind {A B} (Q : A -> Prop) (P : B -> Prop) (m : M A) (f : A -> M B) :
-    tri n Q m -> (forall a, Q a -> tri n P (f a)) -> tri n P (bindM m f).
+    tri n d0 Q m -> (forall a, Q a -> tri n d0 P (f a)) -> tri n d0 P (bindM m f).
   Proof.
     intros Hm Hf h h' r Hj E. apply bindM_inv in E as [[e [E1 Er]]|[a [h1 [E1 E2]]]].
     - destruct (Hm _ _ _ Hj E1) as (F & J' & _ & L). refine (conj F (conj J' (conj _ L))). intros v Hv. subst r. discriminate Hv.
     - destruct (Hm _ _ _ Hj E1) as (F1 & J1 & Q1 & L1). destruct (Hf a (Q1 a eq_refl) _ _ _ J1 E2) as (F2 & J2 & P2 & L2).
-      refine (conj (Fr_trans _ _ _ _ F1 F2) (conj J2 (conj P2 (Nat.le_trans _ _ _ L1 L2)))).
+      refine (conj (Fr_trans _ _ _ _ _ F1 F2) (conj J2 (conj P2 (Nat.le_trans _ _ _ L1 L2)))).
   Qed.
-  Lemma tri_alloc ob : okobj n ob -> tri n (le n) (alloc ob).
+  Lemma tri_alloc ob : okobj n ob -> tri n d0 (le n) (alloc ob).
   Proof.
     intros Ho h h' r [L I] E. unfold alloc in E. inversion E; subst. refine (conj _ (conj (conj _ _) (conj _ _))).
-    - intros x Hx. rewrite nth_error_app1 by lia. reflexivity.
+    - intros x Hx _. rewrite nth_error_app1 by lia. reflexivity.
     - rewrite app_length. lia.
     - intros i ob' Hi Hn. destruct (Nat.lt_ge_cases i (length h)) as [Hl|Hl].
       + rewrite nth_error_app1 in Hn by lia. eapply I; eauto.
@@ -54,10 +57,10 @@ Section TRI.
     - intros v Hv. inversion Hv. subst. exact L.
     - rewrite app_length. lia.
   Qed.
-  Lemma tri_store i ob : n <= i -> okobj n ob -> tri n T (store i ob).
+  Lemma tri_store_k i ob : okk n d0 i -> okobj n ob -> tri n d0 T (store i ob).
   Proof.
     intros Hi Ho h h' r [L I] E. unfold store in E. inversion E; subst. refine (conj _ (conj (conj _ _) (conj _ _))).
-    - intros x Hx. apply nth_replace_other. lia.
+    - intros x Hx Hd. apply nth_replace_other. destruct Hi as [Hi|Hi]; [lia|congruence].
     - rewrite length_replace_nth. exact L.
     - intros j ob' Hj Hn. destruct (Nat.eq_dec i j) as [<-|Hne].
       + pose proof (nth_some_lt _ _ _ Hn) as Hl. rewrite length_replace_nth in Hl. rewrite nth_replace_same in Hn by exact Hl. inversion Hn; subst. exact Ho.
@@ -65,17 +68,19 @@ Section TRI.
     - intros v _. exact Logic.I.
     - rewrite length_replace_nth. apply Nat.le_refl.
   Qed.
-  Lemma tri_iterM {A} (f : A -> M unit) l : (forall a, tri n T (f a)) -> tri n T (iterM f l).
+  Lemma tri_store i ob : n <= i -> okobj n ob -> tri n d0 T (store i ob).
+  Proof. intros Hi. apply tri_store_k. left. exact Hi. Qed.
+  Lemma tri_iterM {A} (f : A -> M unit) l : (forall a, tri n d0 T (f a)) -> tri n d0 T (iterM f l).
   Proof. intros Hf. induction l as [|x l IH]; cbn [iterM]; [apply tri_ret; exact I|eapply tri_bind; [apply Hf|intros _ _; exact IH]]. Qed.
-  Lemma tri_mapMM {A B} (P : B -> Prop) (f : A -> M B) l : (forall a, tri n P (f a)) -> tri n (Forall P) (mapMM f l).
+  Lemma tri_mapMM {A B} (P : B -> Prop) (f : A -> M B) l : (forall a, tri n d0 P (f a)) -> tri n d0 (Forall P) (mapMM f l).
   Proof.
     intros Hf. induction l as [|x l IH]; cbn [mapMM]; [apply tri_ret; constructor|].
     eapply tri_bind; [apply Hf|intros y Hy]. eapply tri_bind; [exact IH|intros ys Hys]. apply tri_ret. constructor; assumption.
   Qed.
   (* a database read above the frame records only projects above the frame *)
-  Lemma tri_get_database d : n <= d -> tri n (okdb n) (get_database d).
+  Lemma tri_get_database d : okk n d0 d -> tri n d0 (okdb n) (get_database d).
   Proof.
-    intros Hd h h' r Hj E. pose proof (ro_get_database d _ _ _ E) as ->. refine (conj (Fr_refl _ _) (conj Hj (conj _ (Nat.le_refl _)))).
+    intros Hd h h' r Hj E. pose proof (ro_get_database d _ _ _ E) as ->. refine (conj (Fr_refl _ _ _) (conj Hj (conj _ (Nat.le_refl _)))).
     intros v ->. unfold get_database, bindM, lookup in E. destruct (nth_error h d) as [ob|] eqn:En; [|discriminate E].
     destruct ob; try discriminate E. inversion E; subst. destruct Hj as [_ I0]. exact (I0 _ _ Hd En).
   Qed.
@@ -88,9 +93,9 @@ Ltac tri_step :=
         | apply tri_store; [lia|exact I]
         | eapply tri_weak; [apply tri_alloc; exact I|intros ? ?; first [exact I|assumption]]
         | eapply tri_weak; [tri_ro_tac|intros ? _; exact I]
-        | match goal with |- tri _ _ (match ?x with _ => _ end) => destruct x end
-        | match goal with |- tri _ _ (if ?x then _ else _) => destruct x end
-        | match goal with |- tri _ _ (let '(_, _) := ?x in _) => destruct x end ].
+        | match goal with |- tri _ _ _ (match ?x with _ => _ end) => destruct x end
+        | match goal with |- tri _ _ _ (if ?x then _ else _) => destruct x end
+        | match goal with |- tri _ _ _ (let '(_, _) := ?x in _) => destruct x end ].
 
 (* build_database = create the database object, then everything else *)
 Definition build_rest (s : pstate) (db : oid) : M oid :=
@@ -109,38 +114,38 @@ Proof. reflexivity. Qed.
 
 (* ---- Classes.v ---- *)
 Section OPS.
-  Variable n : nat.
+  Variables n d0 : nat.
   Notation TT := (fun _ => True).
 
-  Lemma t_new_note_from a : tri n (le n) (new_note_from a).
+  Lemma t_new_note_from a : tri n d0 (le n) (new_note_from a).
   Proof.
     unfold new_note_from. destruct a; try (apply tri_alloc; exact I).
     eapply tri_bind; [tri_ro_tac|intros x _]. apply tri_alloc. exact I.
   Qed.
-  Lemma t_set_note_parent k p : n <= k -> tri n (@T unit) (set_note_parent k p).
+  Lemma t_set_note_parent k p : n <= k -> tri n d0 (@T unit) (set_note_parent k p).
   Proof. intros Hk. unfold set_note_parent. eapply tri_bind; [tri_ro_tac|intros x _]. apply tri_store; [exact Hk|exact I]. Qed.
-  Lemma t_new_expr t : tri n (le n) (new_expr t). Proof. apply tri_alloc. exact I. Qed.
-  Lemma t_new_column nm ty u nn pk ai d nt c p : tri n (le n) (new_column nm ty u nn pk ai d nt c p).
+  Lemma t_new_expr t : tri n d0 (le n) (new_expr t). Proof. apply tri_alloc. exact I. Qed.
+  Lemma t_new_column nm ty u nn pk ai d nt c p : tri n d0 (le n) (new_column nm ty u nn pk ai d nt c p).
   Proof.
     unfold new_column. eapply tri_bind; [apply t_new_note_from|intros k Hk]. eapply tri_bind; [apply tri_alloc; exact I|intros o Ho].
     eapply tri_bind; [apply t_set_note_parent; exact Hk|intros _ _]. apply tri_ret. exact Ho.
   Qed.
-  Lemma t_new_index s nm u ty pk nt c : tri n (le n) (new_index s nm u ty pk nt c).
+  Lemma t_new_index s nm u ty pk nt c : tri n d0 (le n) (new_index s nm u ty pk nt c).
   Proof.
     unfold new_index. eapply tri_bind; [apply t_new_note_from|intros k Hk]. eapply tri_bind; [apply tri_alloc; exact I|intros o Ho].
     eapply tri_bind; [apply t_set_note_parent; exact Hk|intros _ _]. apply tri_ret. exact Ho.
   Qed.
-  Lemma t_new_enumitem nm nt c : tri n (le n) (new_enumitem nm nt c).
+  Lemma t_new_enumitem nm nt c : tri n d0 (le n) (new_enumitem nm nt c).
   Proof.
     unfold new_enumitem. eapply tri_bind; [apply t_new_note_from|intros k Hk]. eapply tri_bind; [apply tri_alloc; exact I|intros o Ho].
     eapply tri_bind; [apply t_set_note_parent; exact Hk|intros _ _]. apply tri_ret. exact Ho.
   Qed.
-  Lemma t_new_project nm items nt c : tri n (le n) (new_project nm items nt c).
+  Lemma t_new_project nm items nt c : tri n d0 (le n) (new_project nm items nt c).
   Proof.
     unfold new_project. eapply tri_bind; [apply t_new_note_from|intros k Hk]. eapply tri_bind; [apply tri_alloc; exact I|intros o Ho].
     eapply tri_bind; [apply t_set_note_parent; exact Hk|intros _ _]. apply tri_ret. exact Ho.
   Qed.
-  Lemma t_enum_add_item e a : n <= e -> tri n (@T unit) (enum_add_item e a).
+  Lemma t_enum_add_item e a : n <= e -> tri n d0 (@T unit) (enum_add_item e a).
   Proof.
     intros He. unfold enum_add_item. destruct a as [o|s].
     - eapply tri_bind; [tri_ro_tac|intros ob _]. destruct ob; try (apply tri_ret; exact I).
@@ -148,94 +153,94 @@ Section OPS.
     - eapply tri_bind; [apply t_new_enumitem|intros i Hi]. eapply tri_bind; [tri_ro_tac|intros x _].
       destruct (e_items x); [apply tri_store; [exact He|exact I]|apply tri_raise].
   Qed.
-  Lemma t_new_enum nm items sc c : tri n (le n) (new_enum nm items sc c).
+  Lemma t_new_enum nm items sc c : tri n d0 (le n) (new_enum nm items sc c).
   Proof.
     unfold new_enum. eapply tri_bind; [apply tri_alloc; exact I|intros e He].
     eapply tri_bind; [apply tri_iterM; intros a; apply t_enum_add_item; exact He|intros _ _]. apply tri_ret. exact He.
   Qed.
-  Lemma t_new_sticky a b : tri n (le n) (new_sticky a b). Proof. apply tri_alloc. exact I. Qed.
-  Lemma t_new_group a b c d e : tri n (le n) (new_group a b c d e). Proof. apply tri_alloc. exact I. Qed.
-  Lemma t_new_reference a b c d e f g i : tri n (le n) (new_reference a b c d e f g i). Proof. apply tri_alloc. exact I. Qed.
-  Lemma t_new_database a b c : tri n (le n) (new_database a b c).
+  Lemma t_new_sticky a b : tri n d0 (le n) (new_sticky a b). Proof. apply tri_alloc. exact I. Qed.
+  Lemma t_new_group a b c d e : tri n d0 (le n) (new_group a b c d e). Proof. apply tri_alloc. exact I. Qed.
+  Lemma t_new_reference a b c d e f g i : tri n d0 (le n) (new_reference a b c d e f g i). Proof. apply tri_alloc. exact I. Qed.
+  Lemma t_new_database a b c : tri n d0 (le n) (new_database a b c).
   Proof. apply tri_alloc. cbn. intros p Hp. discriminate Hp. Qed.
 
-  Lemma t_upd_table t f : n <= t -> tri n (@T unit) (upd_table t f).
+  Lemma t_upd_table t f : n <= t -> tri n d0 (@T unit) (upd_table t f).
   Proof. intros Ht. unfold upd_table. eapply tri_bind; [tri_ro_tac|intros x _]. apply tri_store; [exact Ht|exact I]. Qed.
-  Lemma t_upd_column t f : n <= t -> tri n (@T unit) (upd_column t f).
+  Lemma t_upd_column t f : n <= t -> tri n d0 (@T unit) (upd_column t f).
   Proof. intros Ht. unfold upd_column. eapply tri_bind; [tri_ro_tac|intros x _]. apply tri_store; [exact Ht|exact I]. Qed.
-  Lemma t_upd_index t f : n <= t -> tri n (@T unit) (upd_index t f).
+  Lemma t_upd_index t f : n <= t -> tri n d0 (@T unit) (upd_index t f).
   Proof. intros Ht. unfold upd_index. eapply tri_bind; [tri_ro_tac|intros x _]. apply tri_store; [exact Ht|exact I]. Qed.
-  Lemma t_table_add_column t c : n <= t -> n <= c -> tri n (@T unit) (table_add_column t c).
+  Lemma t_table_add_column t c : n <= t -> n <= c -> tri n d0 (@T unit) (table_add_column t c).
   Proof.
     intros Ht Hc. unfold table_add_column. eapply tri_bind; [tri_ro_tac|intros ob _]. destruct ob; try apply tri_raise.
     eapply tri_bind; [apply t_upd_column; exact Hc|intros _ _]. apply t_upd_table. exact Ht.
   Qed.
-  Lemma t_table_add_index t i : n <= t -> n <= i -> tri n (@T unit) (table_add_index t i).
+  Lemma t_table_add_index t i : n <= t -> n <= i -> tri n d0 (@T unit) (table_add_index t i).
   Proof.
     intros Ht Hi. unfold table_add_index. eapply tri_bind; [tri_ro_tac|intros ob _]. destruct ob; try apply tri_raise.
     destruct (i_subjects _); [|apply tri_raise]. eapply tri_bind; [tri_ro_tac|intros h0 _].
-    match goal with |- tri _ _ (if ?b then _ else _) => destruct b end; [|apply tri_raise].
+    match goal with |- tri _ _ _ (if ?b then _ else _) => destruct b end; [|apply tri_raise].
     eapply tri_bind; [apply t_upd_index; exact Hi|intros _ _]. apply t_upd_table. exact Ht.
   Qed.
-  Lemma t_new_table nm sc al nt hc c ab props : tri n (le n) (new_table nm sc al [] [] nt hc c ab props).
+  Lemma t_new_table nm sc al nt hc c ab props : tri n d0 (le n) (new_table nm sc al [] [] nt hc c ab props).
   Proof.
     unfold new_table. eapply tri_bind; [apply t_new_note_from|intros k Hk]. eapply tri_bind; [apply tri_alloc; exact I|intros t Ht].
-    cbn [iterM]. eapply (tri_bind n (@T unit)); [apply tri_ret; exact I|intros _ _]. eapply (tri_bind n (@T unit)); [apply tri_ret; exact I|intros _ _].
+    cbn [iterM]. eapply (tri_bind n d0 (@T unit)); [apply tri_ret; exact I|intros _ _]. eapply (tri_bind n d0 (@T unit)); [apply tri_ret; exact I|intros _ _].
     eapply tri_bind; [apply t_set_note_parent; exact Hk|intros _ _]. apply tri_ret. exact Ht.
   Qed.
 
   (* ---- Database.v ---- *)
-  Lemma t_set_obj_database o v : n <= o -> tri n (@T unit) (set_obj_database o v).
+  Lemma t_set_obj_database o v : n <= o -> tri n d0 (@T unit) (set_obj_database o v).
   Proof.
     intros Ho. unfold set_obj_database. eapply tri_bind; [tri_ro_tac|intros ob _].
     destruct ob; try apply tri_stuck; (apply tri_store; [exact Ho|exact I]).
   Qed.
-  Lemma t_upd_db d f : n <= d -> (forall x, okdb n x -> okdb n (f x)) -> tri n (@T unit) (upd_db d f).
+  Lemma t_upd_db d f : okk n d0 d -> (forall x, okdb n x -> okdb n (f x)) -> tri n d0 (@T unit) (upd_db d f).
   Proof.
     intros Hd Hf. unfold upd_db. eapply tri_bind; [apply tri_get_database; exact Hd|intros x Hx].
-    apply tri_store; [exact Hd|]. cbn. apply Hf. exact Hx.
+    apply tri_store_k; [exact Hd|]. cbn. apply Hf. exact Hx.
   Qed.
   Ltac keep_project := let y := fresh in let Hy := fresh in let q := fresh in let Hq := fresh in intros y Hy q Hq; apply Hy; exact Hq.
 
-  Lemma t_db_add_table d o : n <= d -> n <= o -> tri n (@T unit) (db_add_table d o).
+  Lemma t_db_add_table d o : okk n d0 d -> n <= o -> tri n d0 (@T unit) (db_add_table d o).
   Proof.
     intros Hd Ho. unfold db_add_table. eapply tri_bind; [tri_ro_tac|intros x _]. eapply tri_bind; [tri_ro_tac|intros t _]. eapply tri_bind; [tri_ro_tac|intros h0 _].
-    repeat (match goal with |- tri _ _ (if ?b then _ else _) => destruct b end; [apply tri_raise|]).
+    repeat (match goal with |- tri _ _ _ (if ?b then _ else _) => destruct b end; [apply tri_raise|]).
     eapply tri_bind; [apply t_set_obj_database; exact Ho|intros _ _]. apply t_upd_db; [exact Hd|keep_project].
   Qed.
-  Lemma t_db_add_reference d o : n <= d -> n <= o -> tri n (@T unit) (db_add_reference d o).
+  Lemma t_db_add_reference d o : okk n d0 d -> n <= o -> tri n d0 (@T unit) (db_add_reference d o).
   Proof.
     intros Hd Ho. unfold db_add_reference. eapply tri_bind; [tri_ro_tac|intros x _]. eapply tri_bind; [tri_ro_tac|intros t _]. eapply tri_bind; [tri_ro_tac|intros h0 _].
     destruct (r_col1 t); [|apply tri_raise]. destruct (r_col2 t); [|apply tri_raise].
-    match goal with |- tri _ _ (if ?b then _ else _) => destruct b end; [|apply tri_raise].
-    match goal with |- tri _ _ (if ?b then _ else _) => destruct b end; [apply tri_raise|].
+    match goal with |- tri _ _ _ (if ?b then _ else _) => destruct b end; [|apply tri_raise].
+    match goal with |- tri _ _ _ (if ?b then _ else _) => destruct b end; [apply tri_raise|].
     eapply tri_bind; [apply t_set_obj_database; exact Ho|intros _ _]. apply t_upd_db; [exact Hd|keep_project].
   Qed.
-  Lemma t_db_add_enum d o : n <= d -> n <= o -> tri n (@T unit) (db_add_enum d o).
+  Lemma t_db_add_enum d o : okk n d0 d -> n <= o -> tri n d0 (@T unit) (db_add_enum d o).
   Proof.
     intros Hd Ho. unfold db_add_enum. eapply tri_bind; [tri_ro_tac|intros x _]. eapply tri_bind; [tri_ro_tac|intros t _]. eapply tri_bind; [tri_ro_tac|intros h0 _].
-    repeat (match goal with |- tri _ _ (if ?b then _ else _) => destruct b end; [apply tri_raise|]).
+    repeat (match goal with |- tri _ _ _ (if ?b then _ else _) => destruct b end; [apply tri_raise|]).
     eapply tri_bind; [apply t_set_obj_database; exact Ho|intros _ _]. apply t_upd_db; [exact Hd|keep_project].
   Qed.
-  Lemma t_db_add_sticky_note d o : n <= d -> n <= o -> tri n (@T unit) (db_add_sticky_note d o).
+  Lemma t_db_add_sticky_note d o : okk n d0 d -> n <= o -> tri n d0 (@T unit) (db_add_sticky_note d o).
   Proof.
     intros Hd Ho. unfold db_add_sticky_note. eapply tri_bind; [tri_ro_tac|intros x _].
     eapply tri_bind; [apply t_set_obj_database; exact Ho|intros _ _]. apply t_upd_db; [exact Hd|keep_project].
   Qed.
-  Lemma t_db_add_table_group d o : n <= d -> n <= o -> tri n (@T unit) (db_add_table_group d o).
+  Lemma t_db_add_table_group d o : okk n d0 d -> n <= o -> tri n d0 (@T unit) (db_add_table_group d o).
   Proof.
     intros Hd Ho. unfold db_add_table_group. eapply tri_bind; [tri_ro_tac|intros x _]. eapply tri_bind; [tri_ro_tac|intros t _]. eapply tri_bind; [tri_ro_tac|intros h0 _].
-    repeat (match goal with |- tri _ _ (if ?b then _ else _) => destruct b end; [apply tri_raise|]).
+    repeat (match goal with |- tri _ _ _ (if ?b then _ else _) => destruct b end; [apply tri_raise|]).
     eapply tri_bind; [apply t_set_obj_database; exact Ho|intros _ _]. apply t_upd_db; [exact Hd|keep_project].
   Qed.
-  Lemma t_db_delete_project d : n <= d -> tri n (@T oid) (db_delete_project d).
+  Lemma t_db_delete_project d : okk n d0 d -> tri n d0 (@T oid) (db_delete_project d).
   Proof.
     intros Hd. unfold db_delete_project. eapply tri_bind; [apply tri_get_database; exact Hd|intros x Hx].
     destruct (d_project x) as [p|] eqn:Ep; [|apply tri_raise].
     eapply tri_bind; [apply t_upd_db; [exact Hd|intros y _ q Hq; discriminate Hq]|intros _ _].
     eapply tri_bind; [apply t_set_obj_database; exact (Hx p Ep)|intros _ _]. apply tri_ret. exact I.
   Qed.
-  Lemma t_db_add_project d o : n <= d -> n <= o -> tri n (@T unit) (db_add_project d o).
+  Lemma t_db_add_project d o : okk n d0 d -> n <= o -> tri n d0 (@T unit) (db_add_project d o).
   Proof.
     intros Hd Ho. unfold db_add_project. eapply tri_bind; [tri_ro_tac|intros pr _]. eapply tri_bind; [tri_ro_tac|intros x _].
     eapply tri_bind with (Q := @T unit).
@@ -243,7 +248,7 @@ Section OPS.
     - intros _ _. eapply tri_bind; [apply t_set_obj_database; exact Ho|intros _ _].
       apply t_upd_db; [exact Hd|]. intros y _ q Hq. cbn in Hq. inversion Hq. subst. exact Ho.
   Qed.
-  Lemma t_db_add d o : n <= d -> n <= o -> tri n (@T unit) (db_add d o).
+  Lemma t_db_add d o : okk n d0 d -> n <= o -> tri n d0 (@T unit) (db_add d o).
   Proof.
     intros Hd Ho. unfold db_add. eapply tri_bind; [tri_ro_tac|intros ob _].
     destruct ob; try apply tri_raise;
@@ -251,47 +256,47 @@ Section OPS.
   Qed.
 
   (* ---- Build.v ---- *)
-  Lemma t_build_enum_item bp : tri n (le n) (build_enum_item bp).
+  Lemma t_build_enum_item bp : tri n d0 (le n) (build_enum_item bp).
   Proof.
-    unfold build_enum_item. destruct bp; try apply tri_stuck. repeat (match goal with |- tri _ _ (match ?x with _ => _ end) => destruct x end; try apply tri_stuck).
+    unfold build_enum_item. destruct bp; try apply tri_stuck. repeat (match goal with |- tri _ _ _ (match ?x with _ => _ end) => destruct x end; try apply tri_stuck).
     eapply tri_bind; [apply tri_lift|intros nt _]. apply t_new_enumitem.
   Qed.
 
-  Ltac bp_cases := repeat (match goal with |- tri _ _ (match ?x with _ => _ end) => destruct x end; try apply tri_stuck; try apply tri_raise).
+  Ltac bp_cases := repeat (match goal with |- tri _ _ _ (match ?x with _ => _ end) => destruct x end; try apply tri_stuck; try apply tri_raise).
 
-  Lemma t_build_enum bp : tri n (le n) (build_enum bp).
+  Lemma t_build_enum bp : tri n d0 (le n) (build_enum bp).
   Proof.
     unfold build_enum. destruct bp; try apply tri_stuck. bp_cases.
     all: eapply tri_bind; [apply tri_mapMM; intros a; apply t_build_enum_item|intros items _]; apply t_new_enum.
   Qed.
-  Lemma t_build_index bp : tri n (le n) (build_index bp).
+  Lemma t_build_index bp : tri n d0 (le n) (build_index bp).
   Proof.
     unfold build_index. destruct bp; try apply tri_stuck. bp_cases.
     all: eapply tri_bind; [apply tri_lift|intros nt _]; apply t_new_index.
   Qed.
-  Lemma t_build_sticky bp : tri n (le n) (build_sticky bp).
+  Lemma t_build_sticky bp : tri n d0 (le n) (build_sticky bp).
   Proof.
     unfold build_sticky. destruct bp; try apply tri_stuck. bp_cases.
     all: eapply tri_bind; [apply tri_lift|intros nt _]; apply t_new_sticky.
   Qed.
-  Lemma t_build_project bp : tri n (le n) (build_project bp).
+  Lemma t_build_project bp : tri n d0 (le n) (build_project bp).
   Proof.
     unfold build_project. destruct bp; try apply tri_stuck. bp_cases.
     all: eapply tri_bind; [apply tri_lift|intros nt _]; bp_cases; apply t_new_project.
   Qed.
 
-  Lemma t_build_column d bp : tri n (le n) (build_column d bp).
+  Lemma t_build_column d bp : tri n d0 (le n) (build_column d bp).
   Proof.
     unfold build_column. destruct bp; try apply tri_stuck. bp_cases.
-    all: eapply (tri_bind n (@T defval)).
-    all: try (intros dflt _; bp_cases; eapply (tri_bind n (@T (pystr * pystr))); [bp_cases; apply tri_ret; exact I|intros sn _];
+    all: eapply (tri_bind n d0 (@T defval)).
+    all: try (intros dflt _; bp_cases; eapply (tri_bind n d0 (@T (pystr * pystr))); [bp_cases; apply tri_ret; exact I|intros sn _];
               eapply tri_bind; [tri_ro_tac|intros db _]; eapply tri_bind; [tri_ro_tac|intros h0 _];
               eapply tri_bind; [apply tri_lift|intros nt _]; apply t_new_column).
     all: bp_cases; try (apply tri_ret; exact I).
     all: try (eapply tri_bind; [apply t_new_expr|intros x _]; apply tri_ret; exact I).
   Qed.
 
-  Lemma t_build_reference d bp : tri n (le n) (build_reference d bp).
+  Lemma t_build_reference d bp : tri n d0 (le n) (build_reference d bp).
   Proof.
     unfold build_reference. destruct bp; try apply tri_stuck. bp_cases.
     all: eapply tri_bind; [apply tri_ro, ro_locate_table|intros t1 _].
@@ -300,15 +305,15 @@ Section OPS.
     all: eapply tri_bind; [apply tri_ro, ro_mapMM_getitem|intros c2 _].
     all: apply t_new_reference.
   Qed.
-  Lemma t_build_group d bp : tri n (le n) (build_group d bp).
+  Lemma t_build_group d bp : tri n d0 (le n) (build_group d bp).
   Proof.
     unfold build_group. destruct bp; try apply tri_stuck. bp_cases.
     all: eapply tri_bind; [apply tri_ro, ro_group_items|intros items _].
     all: eapply tri_bind; [apply tri_lift|intros nt _].
-    all: eapply (tri_bind n (@T (option oid))); [destruct nt; try (apply tri_ret; exact I); eapply tri_bind; [apply tri_alloc; exact I|intros x _]; apply tri_ret; exact I|intros k _].
+    all: eapply (tri_bind n d0 (@T (option oid))); [destruct nt; try (apply tri_ret; exact I); eapply tri_bind; [apply tri_alloc; exact I|intros x _]; apply tri_ret; exact I|intros k _].
     all: bp_cases; apply t_new_group.
   Qed.
-  Lemma t_build_table d bp : tri n (le n) (build_table d bp).
+  Lemma t_build_table d bp : tri n d0 (le n) (build_table d bp).
   Proof.
     unfold build_table. destruct bp; try apply tri_stuck. bp_cases.
     all: eapply tri_bind; [apply tri_lift|intros nt _].
@@ -316,34 +321,34 @@ Section OPS.
     all: eapply tri_bind; [apply tri_iterM; intros cb; eapply tri_bind; [apply t_build_column|intros c Hc]; apply t_table_add_column; assumption|intros _ _].
     all: eapply tri_bind; [|intros _ _; apply tri_ret; exact Ht].
     all: apply tri_iterM; intros ib; eapply tri_bind; [apply t_build_index|intros i Hi].
-    all: eapply (tri_bind n (@T (list subject))).
+    all: eapply (tri_bind n d0 (@T (list subject))).
     all: try (intros subs _; eapply tri_bind; [apply t_upd_index; exact Hi|intros _ _]; apply t_table_add_index; assumption).
-    all: eapply tri_weak; [apply (tri_mapMM n (@T subject))|intros ? _; exact I].
+    all: eapply tri_weak; [apply (tri_mapMM n d0 (@T subject))|intros ? _; exact I].
     all: intros sj; bp_cases; try (apply tri_ret; exact I).
     all: try (eapply tri_bind; [apply t_new_expr|intros x _]; apply tri_ret; exact I).
     all: eapply tri_bind; [tri_ro_tac|intros tb _]; eapply tri_bind; [tri_ro_tac|intros h0 _]; bp_cases; apply tri_ret; exact I.
   Qed.
 
-  Lemma t_build_rest st db : n <= db -> tri n (le n) (build_rest st db).
+  Lemma t_build_rest (P : oid -> Prop) st db : P db -> okk n d0 db -> tri n d0 P (build_rest st db).
   Proof.
-    intros Hdb. unfold build_rest.
+    intros HP Hdb. unfold build_rest.
     eapply tri_bind; [apply tri_iterM; intros bp; eapply tri_bind; [apply t_build_enum|intros e He]; apply t_db_add; assumption|intros _ _].
     eapply tri_bind; [apply tri_iterM; intros bp; eapply tri_bind; [apply t_build_table|intros e He]; apply t_db_add; assumption|intros _ _].
     eapply tri_bind; [apply tri_iterM; intros bp; eapply tri_bind; [apply t_build_group|intros e He]; apply t_db_add; assumption|intros _ _].
     eapply tri_bind; [apply tri_iterM; intros bp; eapply tri_bind; [apply t_build_sticky|intros e He]; apply t_db_add; assumption|intros _ _].
-    eapply (tri_bind n (@T unit)); [destruct (ps_project st); [eapply tri_bind; [apply t_build_project|intros e He]; apply t_db_add; assumption|apply tri_ret; exact I]|intros _ _].
+    eapply (tri_bind n d0 (@T unit)); [destruct (ps_project st); [eapply tri_bind; [apply t_build_project|intros e He]; apply t_db_add; assumption|apply tri_ret; exact I]|intros _ _].
     eapply tri_bind; [apply tri_iterM; intros bp; eapply tri_bind; [apply t_build_reference|intros e He]; apply t_db_add; assumption|intros _ _].
-    apply tri_ret. exact Hdb.
+    apply tri_ret. exact HP.
   Qed.
-  Lemma t_build_database st allow sq dq : tri n (le n) (build_database st allow sq dq).
-  Proof. rewrite build_database_split. eapply tri_bind; [apply t_new_database|intros db Hdb]. apply t_build_rest. exact Hdb. Qed.
+  Lemma t_build_database st allow sq dq : tri n d0 (le n) (build_database st allow sq dq).
+  Proof. rewrite build_database_split. eapply tri_bind; [apply t_new_database|intros db Hdb]. apply t_build_rest; [exact Hdb|left; exact Hdb]. Qed.
 
-  Lemma t_parser_parse source allow sq dq : tri n (le n) (parser_parse source allow sq dq).
+  Lemma t_parser_parse source allow sq dq : tri n d0 (le n) (parser_parse source allow sq dq).
   Proof. unfold parser_parse. eapply tri_bind; [apply tri_ro, ro_blueprints_of|intros st _]. apply t_build_database. Qed.
 End OPS.
 
-Lemma FJ_start h : FJ (length h) h.
-Proof. split; [apply Nat.le_refl|]. intros i ob Hi Hn. apply nth_some_lt in Hn. lia. Qed.
+Lemma FJ_start h : FJ (length h) (length h) h.
+Proof. split; [apply Nat.le_refl|]. intros i ob Hi Hn. apply nth_some_lt in Hn. unfold okk in Hi. lia. Qed.
 
 (* PyDBMLParser.parse writes to no object that existed before the call, whatever the outcome; the database it returns is
    the first object it creates *)
@@ -351,14 +356,14 @@ Theorem parser_parse_frame source allow sq dq h h' r :
   parser_parse source allow sq dq h = (h', r) ->
   length h <= length h' /\ (forall x, x < length h -> nth_error h' x = nth_error h x) /\ (forall d, r = Ok d -> d = length h /\ d < length h').
 Proof.
-  intros E. destruct (t_parser_parse (length h) source allow sq dq _ _ _ (FJ_start h) E) as (F & _ & _ & L).
-  refine (conj L (conj F _)). intros d ->.
+  intros E. destruct (t_parser_parse (length h) (length h) source allow sq dq _ _ _ (FJ_start h) E) as (F & _ & _ & L).
+  refine (conj L (conj (fun x Hx => F x Hx ltac:(lia)) _)). intros d ->.
   unfold parser_parse in E. apply bindM_inv in E as [[e [_ E]]|[st [h1 [E1 E2]]]]; [discriminate E|].
   pose proof (ro_blueprints_of _ _ _ _ _ E1) as ->. rewrite build_database_split in E2.
   apply bindM_inv in E2 as [[e [_ E2]]|[a [h2 [E3 E4]]]]; [discriminate E2|].
-  destruct (t_new_database (length h) sq dq allow _ _ _ (FJ_start h) E3) as (_ & Hj & _ & _).
+  destruct (t_new_database (length h) (length h) sq dq allow _ _ _ (FJ_start h) E3) as (_ & Hj & _ & _).
   unfold new_database, alloc in E3. inversion E3; subst. clear E3.
-  destruct (t_build_rest (length h) st (length h) (Nat.le_refl _) _ _ _ Hj E4) as (_ & _ & _ & L2).
+  destruct (t_build_rest (length h) (length h) (fun _ => True) st (length h) Logic.I (or_introl (Nat.le_refl _)) _ _ _ Hj E4) as (_ & _ & _ & L2).
   rewrite app_length in L2. cbn in L2.
   assert (Hd : d = length h).
   { clear - E4. unfold build_rest in E4. revert E4. generalize (h ++ [ODatabase (mkDatabase [] [] [] [] [] [] None allow sq dq)]). intros h1 E2.
@@ -379,4 +384,19 @@ Proof.
   split; [exact F2|split].
   - intros x Hx. rewrite F2 by lia. apply F1. exact Hx.
   - intros d1 d2 -> ->. destruct (P1 d1 eq_refl) as [_ A]. destruct (P2 d2 eq_refl) as [B _]. split; [exact A|lia].
+Qed.
+
+(* the same judgement with the frame taken in the middle of a build: whatever build_database still does to a heap in which the
+   database [db] records no project below the frame, it writes only to [db] and to objects it creates *)
+Theorem build_steps_write_only_to_the_database_and_new_objects st db h h' r :
+  db < length h -> (forall x, h_database h db = Some x -> d_project x = None) ->
+  build_rest st db h = (h', r) ->
+  forall x, x < length h -> x <> db -> nth_error h' x = nth_error h x.
+Proof.
+  intros Hdb Hp E.
+  assert (HJ : FJ (length h) db h).
+  { split; [apply Nat.le_refl|]. intros i ob [Hi|Hi] Hn; [apply nth_some_lt in Hn; lia|]. subst i.
+    destruct ob; try exact I. cbn. intros p Hpp. rewrite (Hp d) in Hpp; [discriminate Hpp|]. unfold h_database. rewrite Hn. reflexivity. }
+  destruct (t_build_rest (length h) db (fun _ => True) st db Logic.I (or_intror eq_refl) _ _ _ HJ E) as (F & _).
+  exact F.
 Qed.
